@@ -57,6 +57,18 @@ CLAIMS.update({
              "Implementation: all 1024 ordered pairs exhaustively + spellings + arithmetic + update histories against the exact table.",
         note="Trusted: Lean kernel + 3 axioms; translator (cross-checks serde_json's reading of each rate); money regexes exercised not modelled.",
         ref="§7 C06"),
+    "C03": dict(
+        technique="Lean 4 theorems about the session map, the interpreter's assignment/use semantics, the frame of failing lines and the leftmost-then-longest name substitution + differential programs against an environment simulated outside the implementation",
+        text="Proof (every number type): the session map is a finite map where the latest binding wins (get_insert); `name = e` stores the COMPUTED "
+             "value and changes no other binding (assign_stores, assign_frame, exec_frame), hence a binding is a value not a reference "
+             "(value_not_reference), `a = a + k` reads the old value (self_reference), a use denotes what the map holds now (use_sees_latest); a "
+             "line that fails at parse or evaluation time leaves every existing binding unchanged (failed_line_frame, parseLine_frame); "
+             "find_location returns exactly the LEFTMOST full match (findLocation_some_iff) and each substitution round picks the closest, then "
+             "longest name (pickBest_spec). The whole-pipeline refinement to the abstract environment is decided on generated programs: Python "
+             "environment simulation (doubles in tree order, bit-exact) + standalone values for non-number kinds. Two substitution/key defects "
+             "found were repaired in /repo.",
+        note="Trusted: Lean kernel + 3 axioms; text lexing not modelled; end-to-end refinement (abs session = Env) is checked on generated programs, not proved.",
+        ref="§7 C03"),
 })
 
 NOT_YET = {}
